@@ -35,6 +35,8 @@ def main(pid):
                 buildjob.record_new_state_facts(chk, pid)
             elif ob == 'preamble':
                 buildjob.start_self_facts(chk, pid)
+            elif ob == 'crash':
+                buildjob.crash_facts(chk, pid)
         chk.finish(buildjob.make_replay(chk, rep, scn))
     finally:
         rep.cleanup()
